@@ -9,7 +9,7 @@ use std::{
     cell::RefCell,
     collections::BTreeSet,
     fs,
-    io::{self, BufWriter},
+    io::{self, BufWriter, Write},
     path::Path,
     sync::Arc,
     time,
@@ -502,6 +502,7 @@ impl Writer {
                 // switch to new merge data file if we exceed the max file size
                 merge_pos += nbytes;
                 if merge_pos > self.ctx.conf.max_file_size {
+                    sync_merge_files(&mut merge_datafile_writer, &mut merge_hintfile_writer)?;
                     merge_fileid += 1;
                     merge_pos = 0;
                     merge_datafile_writer =
@@ -511,6 +512,8 @@ impl Writer {
                     debug!(merge_fileid, "new merge file");
                 }
             }
+            // The merged files must be on disk before the files they replace are removed
+            sync_merge_files(&mut merge_datafile_writer, &mut merge_hintfile_writer)?;
         }
 
         // Remove stale files from system and storage statistics
@@ -606,6 +609,17 @@ impl Reader {
             None => Ok(None),
         }
     }
+}
+
+/// Flush the merge data file and force both merge files to disk.
+fn sync_merge_files(
+    datafile_writer: &mut BufWriter<fs::File>,
+    hintfile_writer: &mut LogWriter,
+) -> Result<(), Error> {
+    datafile_writer.flush()?;
+    datafile_writer.get_ref().sync_all()?;
+    hintfile_writer.sync()?;
+    Ok(())
 }
 
 #[tracing::instrument(skip(handle, notify_shutdown))]
